@@ -216,6 +216,7 @@ pub fn run_random(seed: u64, rg: &Regime, opts: &Opts, st: &mut Stats) -> Histor
     }
     let steps = r.range(rg.steps.0, rg.steps.1);
     let mut g = GenState { next_id: 0, id_base: (seed % 1_000_000) * 10_000 };
+    let mut last: Option<Op> = None;
     for i in 0..steps {
         if hist.stopped {
             break;
@@ -232,11 +233,19 @@ pub fn run_random(seed: u64, rg: &Regime, opts: &Opts, st: &mut Stats) -> Histor
             hist.step(op, opts, st);
             continue;
         }
+        // now and then the request just made is sent once more, unchanged
+        if let Some(l) = &last {
+            if r.chance(4) {
+                hist.step(l.clone(), opts, st);
+                continue;
+            }
+        }
         let mut op = gen_step(&mut r, rg, &hist.w, &mut g);
         if r.chance(rg.hostile_pct) {
             mutate(&mut r, &hist.w, &mut op);
             st.g("hostile_mutations");
         }
+        last = Some(op.clone());
         hist.step(op, opts, st);
     }
     hist.finish(opts, st);
